@@ -622,7 +622,8 @@ def check_forwards(outer, inner, n, names, fl, outcome, maxn=None):
 
 
 # --------------------------------------------------------------------------- retrieval / partial
-def check_plain_retrieval(fn, outcome):
+def check_plain_retrieval(fn, outcome, owner=None):
+    owner = fn if owner is None else owner      # the object inspected (a functools.wraps wrapper of fn, or fn itself)
     import inspect as _inspect
     real_sigtools()
     from sigtools import _signatures
@@ -635,17 +636,27 @@ def check_plain_retrieval(fn, outcome):
         bad.append(('post:is_def_signature:upgraded', ''))
     if params_data(res) != params_data(d):
         bad.append(('post:is_def_signature:parameters', '%s vs %s' % (res, d)))
-    exp = {n: [fn] for n in d.parameters}
-    exp['+depths'] = {fn: 0}
+    exp = {n: [owner] for n in d.parameters}
+    exp['+depths'] = {owner: 0}
     if res.sources != exp:
         bad.append(('post:is_def_signature:provenance', repr(res.sources)))
-    hints = getattr(fn, '__annotations__', {})
-    for p in res.parameters.values():
-        want = p.annotation
-        if isinstance(want, str):
-            want = eval(want, fn.__globals__, {})
-        if p.upgraded_annotation.source_value() != want:
-            bad.append(('post:is_def_signature:ua', p.name))
+
+    def denoted(raw):
+        # what the annotation denotes in the globals of the function that DEFINED it
+        return eval(raw, fn.__globals__, {}) if isinstance(raw, str) else raw
+    for p in list(res.parameters.values()) + [None]:
+        raw = p.annotation if p is not None else res.return_annotation
+        ua = p.upgraded_annotation if p is not None else res.upgraded_return_annotation
+        name = p.name if p is not None else 'return'
+        if raw is _inspect.Signature.empty:
+            continue
+        try:
+            got = ua.source_value()
+        except Exception as e:
+            got = ('source_value raises', repr(e))
+        if got != denoted(raw):
+            bad.append(('post:is_def_signature:ua', '%s: source_value() gives %r, the annotation denotes %r in the globals of %s' % (name, got, denoted(raw), fn.__name__)))
+            bad.append(('post:ua_follows:ua', name))
     return bad
 
 
